@@ -12,6 +12,7 @@ import (
 	"encoding/json"
 	"fmt"
 	"os"
+	"sync"
 	"time"
 
 	"verif.local/ev"
@@ -92,10 +93,14 @@ func main() {
 
 	// 4. fixed-width and length-prefixed encoders
 	t1 = time.Now()
+	var wg sync.WaitGroup
 	for _, im := range impls {
-		r.Evals(h.sweepFixed(im))
-		r.Evals(h.sweepPrefixed(im))
+		im := im
+		wg.Add(2)
+		go func() { defer wg.Done(); r.Evals(h.sweepFixed(im)) }()
+		go func() { defer wg.Done(); r.Evals(h.sweepPrefixed(im)) }()
 	}
+	wg.Wait()
 	r.Set("phase_s encoders", time.Since(t1).Seconds())
 
 	// 5. every Reader method on valid encodings and all their truncations
